@@ -18,3 +18,41 @@ bool c11_narrow_bad(draco::EncoderBuffer *out, const std::string &str) {
 }
 
 }  // namespace verif_control
+
+// ---- WIRESIG controls ------------------------------------------------------------
+#include "draco/core/decoder_buffer.h"
+#include "draco/core/encoder_buffer.h"
+#include "draco/core/varint_decoding.h"
+#include "draco/core/varint_encoding.h"
+namespace verif_control {
+// writer emits a varint length, reader takes one byte
+bool ws_bad_write(draco::EncoderBuffer *b, const std::string &s) {
+  draco::EncodeVarint(static_cast<uint32_t>(s.size()), b);
+  b->Encode(s.data(), s.size());
+  return true;
+}
+bool ws_bad_read(draco::DecoderBuffer *b, std::string *s) {
+  uint8_t n;
+  if (!b->Decode(&n)) return false;
+  s->resize(n);
+  if (n == 0) return true;
+  return b->Decode(&(*s)[0], n);
+}
+// same record, different control flow
+bool ws_ok_write(draco::EncoderBuffer *b, const std::string &s) {
+  if (s.empty()) {
+    b->Encode(static_cast<uint8_t>(0));
+    return true;
+  }
+  b->Encode(static_cast<uint8_t>(s.size()));
+  b->Encode(s.data(), s.size());
+  return true;
+}
+bool ws_ok_read(draco::DecoderBuffer *b, std::string *s) {
+  uint8_t n;
+  if (!b->Decode(&n)) return false;
+  s->resize(n);
+  if (n == 0) return true;
+  return b->Decode(&(*s)[0], n);
+}
+}  // namespace verif_control
